@@ -681,21 +681,44 @@ class Evaluator:
             return
         sub = some["p"]["ps"][0] if some["p"].get("ps") else some["p"]["fields"][0]["p"]
 
+        my_id = None
+        for lp in self._loops_in(e["arms"]):
+            my_id = lp.get("id")
+            break
+        wb = self._mut_source(e) if getattr(self, "vecs", False) else None          # (path of the vector, name bound to the element) for `for x in v.iter_mut()`
+
         def rec(i, s):
             if i == len(seq) or s.ret is not None:
                 yield s, ("unit",)
                 return
             s2 = s.fork()
-            self.match(sub, seq[i], s2.env)
+            item = seq[i]
+            if wb is not None:
+                # the element is read from the vector as it is now (earlier iterations may have written other elements)
+                cur = self.get_path(s2, wb[0])
+                cs = self.as_seq(cur) if cur is not None else None
+                if cs is not None and i < len(cs):
+                    item = ("tuple", [item[1][0], cs[i]]) if wb[2] and item[0] == "tuple" else cs[i]
+            self.match(sub, item, s2.env)
             for s3, _ in self.ev(some["b"], s2):
                 if s3.ret is not None:
                     yield s3, ("unit",)
-                elif s3.brk is True:
-                    s4 = s3.fork()
+                    continue
+                how = self.loop_exit(s3.brk, my_id) if s3.brk else None
+                s4 = s3.fork()
+                if wb is not None and wb[1] in s4.env:
+                    cur = self.get_path(s4, wb[0])
+                    cs = self.as_seq(cur) if cur is not None else None
+                    if cs is not None and i < len(cs):
+                        q = list(cs)
+                        q[i] = s4.env[wb[1]]
+                        self.put(s4, wb[0], ("array", q))
+                if how == "outer":
+                    yield s4, ("unit",)
+                elif how == "break":
                     s4.brk = False
                     yield s4, ("unit",)
                 else:
-                    s4 = s3.fork()
                     s4.brk = False
                     yield from rec(i + 1, s4)
         n = 0
@@ -707,6 +730,39 @@ class Evaluator:
 
     def ev_Loop(self, e, st):
         self.loops += 1
+        if getattr(self, "vecs", False) and e.get("src") in ("Loop", "While") and e.get("id") is not None:
+            # folding tables: the loop is executed iteration by iteration on the concrete state (bounded; an iteration that does not decide its exit makes the result unknown)
+            my_id = e["id"]
+            work = [(st, 0)]
+            total = 0
+            while work:
+                s, n = work.pop()
+                if n > 400:
+                    yield s.fork(("loop-bound",)), ("unknown", "loop bound")
+                    continue
+                for s3, _ in self.block(e["b"], s):
+                    total += 1
+                    if total > 20000:
+                        raise TooManyPaths()
+                    if s3.ret is not None:
+                        yield s3, ("unit",)
+                        continue
+                    how = self.loop_exit(s3.brk, my_id) if s3.brk else None
+                    if how == "outer":
+                        yield s3, ("unit",)
+                    elif how == "break":
+                        s4 = s3.fork()
+                        s4.brk = False
+                        yield s4, ("unit",)
+                    else:
+                        s4 = s3.fork()
+                        s4.brk = False
+                        if s4.conds != s.conds:
+                            # the iteration left a condition open: continuing would not be an execution any more
+                            yield s4.fork(("loop-iteration",)), ("unknown", "loop")
+                        else:
+                            work.append((s4, n + 1))
+            return
         s2 = st.fork(("loop-iteration",))
         for s3, _ in self.block(e["b"], s2):
             if s3.ret is not None:
@@ -716,13 +772,24 @@ class Evaluator:
 
     def ev_Break(self, e, st):
         s = st.fork()
-        s.brk = True
+        s.brk = ("break", e["target"]) if getattr(self, "vecs", False) and e.get("target") is not None else True
         yield s, ("unit",)
 
     def ev_Continue(self, e, st):
         s = st.fork()
-        s.brk = "continue"
+        s.brk = ("continue", e["target"]) if getattr(self, "vecs", False) and e.get("target") is not None else "continue"
         yield s, ("unit",)
+
+    @staticmethod
+    def loop_exit(brk, my_id):
+        """how a pending break / continue concerns the loop `my_id`: "break" / "continue" for this loop, "outer" when it names an enclosing loop"""
+        if brk is True:
+            return "break"
+        if brk == "continue":
+            return "continue"
+        if isinstance(brk, tuple):
+            return brk[0] if (my_id is None or brk[1] == my_id) else "outer"
+        return None
 
     def ev_Ret(self, e, st):
         if "e" in e:
@@ -750,6 +817,11 @@ class Evaluator:
             if a.get("k") == "Path" and a.get("res") == "local":
                 s2 = s.fork()
                 s2.env[a["name"]] = v
+                yield s2, ("unit",)
+            elif getattr(self, "vecs", False) and self.recv_path_of(a) is not None:
+                # folding tables: `x.f = v`, `*r = v`, `self.f.g = v` (references are transparent: a write through one is a write of the value it holds)
+                s2 = s.fork()
+                self.put(s2, self.recv_path_of(a), v)
                 yield s2, ("unit",)
             else:
                 yield s, ("unit",)
@@ -1331,6 +1403,88 @@ class Evaluator:
                     s = s.fork()
                     self.put(s, rpath, ("unknown", "method %s of a tracked vector is not modelled" % method))
                 yield s, ("call", callee, [recv] + args)
+
+    @staticmethod
+    def _loops_in(n):
+        if isinstance(n, dict):
+            if n.get("k") == "Loop":
+                yield n
+                return
+            for v in n.values():
+                if isinstance(v, (dict, list)):
+                    yield from Evaluator._loops_in(v)
+        elif isinstance(n, list):
+            for x in n:
+                yield from Evaluator._loops_in(x)
+
+    def _mut_source(self, e):
+        """for `for x in v.iter_mut()` / `for (i, x) in v.iter_mut().enumerate()` / `for x in &mut v`: (path of v, name bound to the element, enumerated?)"""
+        it = e.get("e")
+        while isinstance(it, dict) and it.get("k") in ("DropTemps", "Paren"):
+            it = it.get("e")
+        if isinstance(it, dict) and it.get("k") == "Call" and it.get("args"):
+            it = it["args"][0]
+        enum = False
+        while isinstance(it, dict) and it.get("k") in ("DropTemps", "Paren"):
+            it = it.get("e")
+        if isinstance(it, dict) and it.get("k") == "MethodCall" and it.get("method") == "enumerate":
+            enum = True
+            it = it.get("recv")
+        src = None
+        if isinstance(it, dict) and it.get("k") == "MethodCall" and it.get("method") == "iter_mut":
+            src = self.recv_path_of(it.get("recv"))
+        elif isinstance(it, dict) and it.get("k") == "AddrOf" and it.get("mut"):
+            src = self.recv_path_of(it.get("e"))
+        if src is None:
+            return None
+        # the element's binding: `x` or `(i, x)`
+        some = None
+        for lp in self._loops_in(e["arms"]):
+            for arm, _ in ((a, None) for a in self._some_arms(lp)):
+                some = arm
+        if some is None:
+            return None
+        sub = some["p"]["ps"][0] if some["p"].get("ps") else some["p"]["fields"][0]["p"]
+        while sub.get("k") in ("Ref", "Guard") and "p" in sub:
+            sub = sub["p"]
+        if not enum and sub.get("k") == "Bind":
+            return (src, sub["name"], False)
+        if enum and sub.get("k") == "Tuple" and len(sub.get("ps", [])) == 2:
+            q = sub["ps"][1]
+            while q.get("k") in ("Ref", "Guard") and "p" in q:
+                q = q["p"]
+            if q.get("k") == "Bind":
+                return (src, q["name"], True)
+        return None
+
+    @staticmethod
+    def _some_arms(lp):
+        out = []
+
+        def find(n):
+            if isinstance(n, dict):
+                if n.get("k") == "Match" and n.get("src") == "ForLoopDesugar":
+                    for arm in n.get("arms", []):
+                        if arm["p"].get("k") in ("TupleStruct", "Struct") and arm["p"].get("path", "").endswith("Some"):
+                            out.append(arm)
+                    return
+                for v in n.values():
+                    if isinstance(v, (dict, list)):
+                        find(v)
+            elif isinstance(n, list):
+                for x in n:
+                    find(x)
+        find(lp)
+        return out
+
+    def get_path(self, s, path):
+        name, fields = path
+        v = s.env.get(name)
+        for f in fields:
+            if not (isinstance(v, tuple) and v and v[0] == "rec" and f in v[1]):
+                return None
+            v = v[1][f]
+        return v
 
     def put(self, s, path, value):
         """store a value at a receiver path (local, fields..): the local itself, or a field of the record it holds"""
